@@ -568,3 +568,386 @@ Proof.
   split; [apply nth_upd_same; auto|]. unfold Model.wdenote. simpl. rewrite Hw. apply nth_upd_same; auto.
 Qed.
 End SliceProofs.
+
+(* ------------------------------------------------------------------------------------------- *)
+(* E. wrappers of a nested struct field *)
+
+Lemma getd_setd_same : forall A (d : A) l i x, getd d (setd d l i x) i = x.
+Proof. unfold getd. intros A d l i. revert l. induction i; destruct l; simpl; intros; auto. Qed.
+
+Lemma getd_setd_other : forall A (d : A) l i j x, i <> j -> getd d (setd d l i x) j = getd d l j.
+Proof.
+  unfold getd. intros A d l i. revert l. induction i; destruct l; destruct j; simpl; intros; try congruence; auto.
+  - destruct j; reflexivity.
+  - rewrite IHi by congruence. destruct j; reflexivity.
+Qed.
+
+Section NestedProofs.
+Variable V : Type.
+Variable zero : V.
+Variable U : Type.
+Variable app : U -> V -> V.
+Variable F : Type.
+Variable getf : V -> F.
+Variable setf : F -> V -> V.
+Variable UF : Type.
+Variable appf : UF -> F -> F.
+
+Notation nst := (Model.nst V F).
+Notation nstep := (Model.nstep V zero U app F getf setf UF appf).
+Notation fdenote := (Model.fdenote V F getf).
+Notation ninv := (Model.ninv V F).
+Notation inv := (Model.inv V).
+Notation wdenote := (Model.wdenote V).
+Notation wupdate := (Model.wupdate V).
+
+Definition ninv2 (n : nst) : Prop := inv (n_s V F n) /\ ninv n.
+
+Lemma wupdate_pres : forall s w' g, inv s ->
+  inv (wupdate s w' g) /\ (forall w, w <> w' -> wdenote (wupdate s w' g) w = wdenote s w) /\
+  wdenote (wupdate s w' g) w' = option_map g (wdenote s w').
+Proof.
+  intros s w' g [L [B C]]. unfold Model.wupdate, Model.wdenote.
+  destruct (nth_error (i_ws V s) w') as [[i|x]|] eqn:E0.
+  - destruct (nth_error (i_arr V s) i) as [v|] eqn:Ea.
+    + assert (Hi : i < length (i_arr V s)) by (eapply nth_some_lt; eauto).
+      split; [split; [|split]; simpl; auto; rewrite upd_length; auto|]. split; simpl.
+      * intros w N. destruct (nth_error (i_ws V s) w) as [[j|y]|] eqn:Ew; auto.
+        rewrite nth_upd_other; auto. intro; subst j.
+        pose proof (C _ _ Ew) as X1. pose proof (C _ _ E0) as X2. congruence.
+      * rewrite E0. rewrite nth_upd_same by auto. reflexivity.
+    + split; [split; [|split]; auto|]. split; auto. rewrite E0, Ea. reflexivity.
+  - assert (Hw : w' < length (i_ws V s)) by (eapply nth_some_lt; eauto).
+    split; [split; [|split]; simpl; auto|]; [| |split; simpl].
+    + intros j w X. pose proof (B _ _ X) as Y. rewrite nth_upd_other; auto. intro; subst. congruence.
+    + intros w j. rewrite nth_upd. destruct (Nat.eqb_spec w' w).
+      { destruct (Nat.ltb w' (length (i_ws V s))); discriminate. }
+      apply C.
+    + intros w N. rewrite nth_upd_other; auto.
+    + rewrite nth_upd_same by auto. reflexivity.
+  - split; [split; [|split]; auto|]. split; auto. rewrite E0. reflexivity.
+Qed.
+
+(* an operation entitled to change what field wrapper c denotes *)
+Definition ntouches (n : nst) (c : nat) (o : nop V U F UF) : bool :=
+  match o with
+  | NWriteF c' _ => match nth_error (n_fhs V F n) c' with Some (Some x) => Nat.eqb c x | _ => false end
+  | NBase b => match nth_error (n_fws V F n) c with
+               | Some (FSub w) => Model.touches V U (n_s V F n) w b
+               | _ => false
+               end
+  | _ => false
+  end.
+
+Lemma howner_denotes : forall n k w, Model.howner V F n k = Some w -> wdenote (n_s V F n) w <> None.
+Proof.
+  unfold Model.howner. intros n k w H.
+  destruct (nth_error (i_hs V (n_s V F n)) k) as [[w0|]|]; try discriminate.
+  destruct (wdenote (n_s V F n) w0) eqn:E; try discriminate. inversion H; subst. congruence.
+Qed.
+
+Lemma nstep_pres : forall n o c, ninv2 n ->
+  ninv2 (fst (nstep n o)) /\
+  (ntouches n c o = false -> fdenote n c <> None -> fdenote (fst (nstep n o)) c = fdenote n c).
+Proof.
+  intros n o c [I [NB NC]]. destruct o; simpl.
+  - (* NBase *)
+    destruct (Model.istep V zero U app (n_s V F n) o) as [s' x] eqn:E. simpl.
+    assert (s' = fst (Model.istep V zero U app (n_s V F n) o)) by (rewrite E; auto). subst s'.
+    split; [split; [apply (istep_pres V zero U app _ o 0 I)|split; auto]|].
+    unfold Model.fdenote. simpl. intros T Hd.
+    destruct (nth_error (n_fws V F n) c) as [[w|f]|]; auto.
+    destruct (istep_pres V zero U app (n_s V F n) o w I) as [_ D]. rewrite D; auto.
+    intro X. rewrite X in Hd. simpl in Hd. congruence.
+  - (* NGetF *)
+    destruct (Model.howner V F n k) as [w|] eqn:Ho; simpl; [|split; [split; [|split]|]; auto].
+    destruct (getd None (n_fc V F n) w) as [c0|] eqn:Ec; simpl; [split; [split; [|split]|]; auto|].
+    split; [split; [auto|split]|]; simpl.
+    + intros w1 c1. destruct (Nat.eq_dec w w1).
+      * subst. rewrite getd_setd_same. intro X; inversion X; subst.
+        rewrite nth_error_app2 by lia. rewrite Nat.sub_diag. reflexivity.
+      * rewrite getd_setd_other by auto. intro X. pose proof (NB _ _ X).
+        rewrite nth_error_app1; auto. eapply nth_some_lt; eauto.
+    + intros c1 w1 X. destruct (Nat.lt_ge_cases c1 (length (n_fws V F n))).
+      * rewrite nth_error_app1 in X by auto. pose proof (NC _ _ X) as Y.
+        destruct (Nat.eq_dec w w1); [subst; congruence|]. rewrite getd_setd_other; auto.
+      * rewrite nth_error_app2 in X by auto. destruct (c1 - length (n_fws V F n)) eqn:D; simpl in X.
+        { inversion X; subst. rewrite getd_setd_same. f_equal. lia. }
+        destruct n0; discriminate.
+    + intros _ Hd. unfold Model.fdenote in *. simpl.
+      destruct (nth_error (n_fws V F n) c) eqn:Ec1; [|congruence].
+      rewrite nth_error_app1 by (eapply nth_some_lt; eauto). rewrite Ec1. reflexivity.
+  - (* NPutF *)
+    destruct (Model.howner V F n k) as [w|] eqn:Ho; simpl; [|split; [split; [|split]|]; auto].
+    pose proof (howner_denotes n k w Ho) as Hw.
+    destruct (wdenote (n_s V F n) w) as [v|] eqn:Ev; [|congruence]. simpl.
+    destruct (wupdate_pres (n_s V F n) w (setf f) I) as [I' [Do Ds]].
+    split; [split; [auto|split]|]; simpl.
+    + intros w1 c1. destruct (Nat.eq_dec w w1); [subst; rewrite getd_setd_same; discriminate|].
+      rewrite getd_setd_other by auto. intro X. pose proof (NB _ _ X) as Y.
+      destruct (getd None (n_fc V F n) w) as [c0|] eqn:Ec; auto.
+      rewrite nth_upd_other; auto. intro; subst c1. pose proof (NB _ _ Ec). congruence.
+    + intros c1 w1 X.
+      assert (X' : nth_error (n_fws V F n) c1 = Some (FSub w1) /\ getd None (n_fc V F n) w <> Some c1).
+      { destruct (getd None (n_fc V F n) w) as [c0|] eqn:Ec; [|split; [auto|discriminate]].
+        rewrite nth_upd in X. destruct (Nat.eqb_spec c0 c1).
+        - destruct (Nat.ltb c0 (length (n_fws V F n))); discriminate.
+        - split; auto. congruence. }
+      destruct X' as [X1 X2]. pose proof (NC _ _ X1) as Y.
+      destruct (Nat.eq_dec w w1); [subst; congruence|]. rewrite getd_setd_other; auto.
+    + intros _ Hd. unfold Model.fdenote in *. simpl.
+      destruct (getd None (n_fc V F n) w) as [c0|] eqn:Ec.
+      * pose proof (NB _ _ Ec) as Y. rewrite nth_upd. destruct (Nat.eqb_spec c0 c).
+        { subst c0. rewrite Y. rewrite Ev. simpl.
+          assert (c < length (n_fws V F n)) by (eapply nth_some_lt; eauto).
+          apply Nat.ltb_lt in H. rewrite H. reflexivity. }
+        destruct (nth_error (n_fws V F n) c) as [[w1|f1]|] eqn:E1; auto.
+        rewrite Do; auto. intro; subst w1. pose proof (NC _ _ E1). congruence.
+      * destruct (nth_error (n_fws V F n) c) as [[w1|f1]|] eqn:E1; auto.
+        rewrite Do; auto. intro; subst w1. pose proof (NC _ _ E1). congruence.
+  - (* NPutFBad *)
+    destruct (Model.howner V F n k); simpl; split; try (split; [|split]); auto.
+  - (* NWriteF *)
+    destruct (nth_error (n_fhs V F n) c0) as [[x|]|] eqn:Eh; simpl; [|split; [split; [|split]|]; auto|split; [split; [|split]|]; auto].
+    destruct (nth_error (n_fws V F n) x) as [[w|f]|] eqn:Ex; simpl; [| |split; [split; [|split]|]; auto].
+    + destruct (wupdate_pres (n_s V F n) w (fun v => setf (appf u (getf v)) v) I) as [I' [Do Ds]].
+      split; [split; [auto|split; auto]|].
+      intros T Hd. unfold Model.fdenote in *. simpl.
+      destruct (nth_error (n_fws V F n) c) as [[w1|f1]|] eqn:E1; auto.
+      rewrite Do; auto. intro; subst w1.
+      pose proof (NC _ _ E1) as Y1. pose proof (NC _ _ Ex) as Y2. rewrite Y1 in Y2. inversion Y2; subst.
+      rewrite Nat.eqb_refl in T. discriminate.
+    + assert (Hx : x < length (n_fws V F n)) by (eapply nth_some_lt; eauto).
+      split; [split; [auto|split]|]; simpl.
+      * intros w1 c1 X. pose proof (NB _ _ X) as Y. rewrite nth_upd_other; auto. intro; subst. congruence.
+      * intros c1 w1. rewrite nth_upd. destruct (Nat.eqb_spec x c1).
+        { destruct (Nat.ltb x (length (n_fws V F n))); discriminate. }
+        apply NC.
+      * intros T Hd. unfold Model.fdenote in *. simpl. rewrite nth_upd_other; auto.
+        intro; subst. rewrite Nat.eqb_refl in T. discriminate.
+  - (* NReadF *) split; [split; [|split]|]; auto.
+  - (* NSameF *) destruct (Model.howner V F n k); simpl; split; try (split; [|split]); auto.
+Qed.
+
+Lemma ninv2_init : forall l, ninv2 (Model.ninit V F l).
+Proof.
+  intros. split; [apply inv_init|]. unfold Model.ninit, Model.ninv. simpl. split.
+  - intros w c H. unfold getd in H. destruct w; discriminate.
+  - intros c w H. destruct c; discriminate.
+Qed.
+
+Lemma nrun_cons : forall n o r,
+  fst (Model.nrun V zero U app F getf setf UF appf n (o :: r)) =
+  fst (Model.nrun V zero U app F getf setf UF appf (fst (nstep n o)) r).
+Proof.
+  intros. simpl. destruct (nstep n o) as [n1 x]. simpl.
+  destruct (Model.nrun V zero U app F getf setf UF appf n1 r). reflexivity.
+Qed.
+
+Lemma ninv2_run : forall ops n, ninv2 n -> ninv2 (fst (Model.nrun V zero U app F getf setf UF appf n ops)).
+Proof.
+  induction ops; intros n I; [auto|]. rewrite nrun_cons. apply IHops. apply (nstep_pres n a 0 I).
+Qed.
+
+Fixpoint nuntouched (n : nst) (c : nat) (ops : list (nop V U F UF)) : bool :=
+  match ops with
+  | [] => true
+  | o :: r => negb (ntouches n c o) && nuntouched (fst (nstep n o)) c r
+  end.
+
+Lemma nstable_run : forall ops n c, ninv2 n -> nuntouched n c ops = true -> fdenote n c <> None ->
+  fdenote (fst (Model.nrun V zero U app F getf setf UF appf n ops)) c = fdenote n c.
+Proof.
+  induction ops; intros n c I T Hd; [reflexivity|].
+  rewrite nrun_cons. simpl in T. apply andb_prop in T. destruct T as [T1 T2].
+  assert (TT : ntouches n c a = false) by (destruct (ntouches n c a); auto; discriminate).
+  destruct (nstep_pres n a c I) as [I1 D1]. rewrite IHops; auto. rewrite D1; auto.
+Qed.
+
+(* the field wrapper handed out for H[k].In is the live view of that field: a write through it reaches
+   whatever the owner addresses (the Go slice slot when the owner is Live) *)
+Lemma field_write_through : forall n c x w u v, ninv2 n ->
+  nth_error (n_fhs V F n) c = Some (Some x) -> nth_error (n_fws V F n) x = Some (FSub w) ->
+  wdenote (n_s V F n) w = Some v ->
+  wdenote (n_s V F (fst (nstep n (NWriteF c u)))) w = Some (setf (appf u (getf v)) v).
+Proof.
+  intros n c x w u v [I _] Hc Hx Hw. simpl. rewrite Hc, Hx. simpl.
+  destruct (wupdate_pres (n_s V F n) w (fun v => setf (appf u (getf v)) v) I) as [_ [_ Ds]].
+  rewrite Ds, Hw. reflexivity.
+Qed.
+
+(* a FAILING assignment to the field changes nothing: the wrapper handed out earlier stays attached *)
+Lemma failing_assignment_noop : forall n k, fst (nstep n (NPutFBad k)) = n.
+Proof. intros. simpl. destruct (Model.howner V F n k); reflexivity. Qed.
+End NestedProofs.
+
+(* ------------------------------------------------------------------------------------------- *)
+(* C. the export identity cache on script-built graphs *)
+
+Section ExportGraph.
+Variable g : graph.
+
+(* what one (sub-)export may do to the context: the cache keeps its size, only gains entries *)
+Definition ext (s s' : est) : Prop :=
+  length (e_cache s') = length (e_cache s) /\
+  (forall id x, cache_get s id = Some x -> cache_get s' id = Some x) /\
+  count_none (e_cache s') <= count_none (e_cache s).
+
+Lemma ext_refl : forall s, ext s s.
+Proof. intros. repeat split; auto. Qed.
+
+Lemma ext_trans : forall a b c, ext a b -> ext b c -> ext a c.
+Proof. intros a b c [L1 [M1 C1]] [L2 [M2 C2]]. repeat split; try congruence; auto. lia. Qed.
+
+Lemma count_none_upd : forall c id x, nth_error c id = Some None ->
+  S (count_none (upd c id (Some x))) = count_none c.
+Proof.
+  unfold count_none. induction c; destruct id; simpl; intros; try discriminate.
+  - inversion H; subst. simpl. reflexivity.
+  - destruct a; simpl; rewrite <- (IHc id x H); reflexivity.
+Qed.
+
+Lemma cache_get_none_slot : forall s id, id < length (e_cache s) -> cache_get s id = None ->
+  nth_error (e_cache s) id = Some None.
+Proof.
+  unfold cache_get. intros s id L H. destruct (nth_error (e_cache s) id) as [[r|]|] eqn:E; try discriminate; auto.
+  apply nth_error_None in E. lia.
+Qed.
+
+Lemma ext_put : forall s id x hp, id < length (e_cache s) -> cache_get s id = None ->
+  ext s (mkEst (upd (e_cache s) id (Some x)) hp) /\
+  cache_get (mkEst (upd (e_cache s) id (Some x)) hp) id = Some x /\
+  S (count_none (upd (e_cache s) id (Some x))) = count_none (e_cache s).
+Proof.
+  intros s id x hp L H. pose proof (cache_get_none_slot s id L H) as E.
+  pose proof (count_none_upd _ id x E) as Cn. split; [|split; auto].
+  - repeat split; simpl.
+    + apply upd_length.
+    + intros id' y. unfold cache_get. simpl. rewrite nth_upd. destruct (Nat.eqb_spec id id'); auto.
+      subst. rewrite E. discriminate.
+    + lia.
+  - unfold cache_get. simpl. rewrite nth_upd_same; auto.
+Qed.
+
+Lemma exp_fields_ext : forall ev,
+  (forall s x s1 r, ev s x = Some (s1, r) -> ext s s1) ->
+  forall l s s2 kvs, exp_fields ev l s = Some (s2, kvs) -> ext s s2.
+Proof.
+  intros ev Hev. induction l as [|[k x] l IH]; simpl; intros s s2 kvs H.
+  - inversion H; subst. apply ext_refl.
+  - destruct (ev s x) as [[s1 rx]|] eqn:E; try discriminate.
+    destruct (exp_fields ev l s1) as [[s3 rr]|] eqn:E2; try discriminate. inversion H; subst.
+    eapply ext_trans; eauto.
+Qed.
+
+Lemma exp_val_ext : forall fuel st v st' r,
+  length (e_cache st) = length g -> exp_val fuel g st v = Some (st', r) ->
+  ext st st' /\ (forall id, v = JR id -> cache_get st' id = Some r).
+Proof.
+  induction fuel; intros st v st' r L H.
+  - destruct v; simpl in H.
+    + inversion H; subst. split; [apply ext_refl|discriminate].
+    + destruct (cache_get st id) eqn:E; try discriminate. inversion H; subst.
+      split; [apply ext_refl|]. intros id' X; inversion X; subst; auto.
+  - destruct v; simpl in H.
+    + inversion H; subst. split; [apply ext_refl|discriminate].
+    + destruct (cache_get st id) eqn:E.
+      { inversion H; subst. split; [apply ext_refl|]. intros id' X; inversion X; subst; auto. }
+      destruct (nth_error g id) as [nd|] eqn:En; try discriminate.
+      assert (Hid : id < length (e_cache st)) by (rewrite L; eapply nth_some_lt; eauto).
+      set (a := length (e_heap st)) in *.
+      destruct (ext_put st id (node_res nd a) (e_heap st ++ [node_cell nd []]) Hid E) as [X1 [X2 _]].
+      set (st1 := mkEst (upd (e_cache st) id (Some (node_res nd a))) (e_heap st ++ [node_cell nd []])) in *.
+      destruct (exp_fields (exp_val fuel g) (node_fields nd) st1) as [[s2 kvs]|] eqn:Ef; try discriminate.
+      inversion H; subst. clear H.
+      (* every sub-export started from a context whose cache has the size of the graph *)
+      assert (Hf : forall l s s3 kv, length (e_cache s) = length g ->
+                   exp_fields (exp_val fuel g) l s = Some (s3, kv) -> ext s s3).
+      { induction l as [|[k x] l IHl]; simpl; intros s s3 kv Ls Hl.
+        - inversion Hl; subst. apply ext_refl.
+        - destruct (exp_val fuel g s x) as [[s1 rx]|] eqn:E1; try discriminate.
+          destruct (exp_fields (exp_val fuel g) l s1) as [[s4 rr]|] eqn:E2; try discriminate.
+          inversion Hl; subst. destruct (IHfuel _ _ _ _ Ls E1) as [Y _].
+          eapply ext_trans; eauto. eapply IHl; eauto. destruct Y as [Y1 _]. congruence. }
+      assert (L1 : length (e_cache st1) = length g) by (unfold st1; simpl; rewrite upd_length; auto).
+      pose proof (Hf _ _ _ _ L1 Ef) as X3.
+      split.
+      * destruct X1 as [A1 [A2 A3]]. destruct X3 as [B1 [B2 B3]]. repeat split; simpl; try congruence; try lia.
+        intros id' x Hx. unfold cache_get in *. simpl. apply B2. apply A2. auto.
+      * intros id' X; inversion X; subst. destruct X3 as [_ [B2 _]].
+        unfold cache_get in *. simpl. apply B2. auto.
+Qed.
+
+(* equal object ids => identical Go results: once an object has a result, every later reference to it
+   in ANY later context of the same export returns that very result (same address), and leaves the
+   context unchanged *)
+Lemma exp_val_cached : forall fuel st id r,
+  cache_get st id = Some r -> exp_val fuel g st (JR id) = Some (st, r).
+Proof. intros. destruct fuel; simpl; rewrite H; reflexivity. Qed.
+
+Lemma export_sharing : forall fuel st id st1 r fuel' st2,
+  length (e_cache st) = length g ->
+  exp_val fuel g st (JR id) = Some (st1, r) -> ext st1 st2 ->
+  exp_val fuel' g st2 (JR id) = Some (st2, r).
+Proof.
+  intros fuel st id st1 r fuel' st2 L H [_ [M _]].
+  destruct (exp_val_ext _ _ _ _ _ L H) as [_ C]. apply exp_val_cached. apply M. apply C. reflexivity.
+Qed.
+
+(* termination on cyclic graphs: fuel > number of objects that have no result yet *)
+Lemma exp_fields_total : forall ev (R : est -> Prop) l,
+  (forall s x, R s -> In x (map snd l) -> exists s1 r, ev s x = Some (s1, r) /\ R s1) ->
+  forall s, R s -> exists s2 kvs, exp_fields ev l s = Some (s2, kvs).
+Proof.
+  intros ev R. induction l as [|[k x] l IH]; simpl; intros Hev s Rs.
+  - eauto.
+  - destruct (Hev s x Rs (or_introl eq_refl)) as [s1 [r [E R1]]]. rewrite E.
+    destruct (IH (fun s0 x0 R0 I0 => Hev s0 x0 R0 (or_intror I0)) s1 R1) as [s2 [kvs E2]].
+    rewrite E2. eauto.
+Qed.
+
+Lemma node_fields_closed : forall nd n x, node_closed n nd = true -> In x (map snd (node_fields nd)) ->
+  jv_closed n x = true.
+Proof.
+  intros nd n x H I. destruct nd; simpl in *.
+  - rewrite forallb_forall in H. apply in_map_iff in I. destruct I as [kv [E I]]. subst. apply H. auto.
+  - rewrite forallb_forall in H. rewrite map_map in I. simpl in I. rewrite map_id in I. apply H. auto.
+Qed.
+
+Lemma exp_val_total : forall fuel st v,
+  graph_closed g = true -> length (e_cache st) = length g ->
+  count_none (e_cache st) < fuel -> jv_closed (length g) v = true ->
+  exists st' r, exp_val fuel g st v = Some (st', r).
+Proof.
+  induction fuel; intros st v GC L Cn Cv; [lia|].
+  destruct v; simpl; [eauto|].
+  destruct (cache_get st id) eqn:E; [eauto|].
+  simpl in Cv. apply Nat.ltb_lt in Cv.
+  destruct (nth_error g id) as [nd|] eqn:En; [|apply nth_error_None in En; lia].
+  assert (Hid : id < length (e_cache st)) by lia.
+  set (a := length (e_heap st)).
+  destruct (ext_put st id (node_res nd a) (e_heap st ++ [node_cell nd []]) Hid E) as [X1 [X2 X3]].
+  set (st1 := mkEst (upd (e_cache st) id (Some (node_res nd a))) (e_heap st ++ [node_cell nd []])) in *.
+  assert (NC : node_closed (length g) nd = true).
+  { unfold graph_closed in GC. rewrite forallb_forall in GC. apply GC. eapply nth_error_In; eauto. }
+  destruct (exp_fields_total (exp_val fuel g)
+              (fun s => length (e_cache s) = length g /\ count_none (e_cache s) < fuel) (node_fields nd)) with (s := st1)
+    as [s2 [kvs Ef]].
+  - intros s x [Ls Cs] I.
+    destruct (IHfuel s x GC Ls Cs (node_fields_closed nd _ x NC I)) as [s1 [r E1]].
+    exists s1, r. split; auto. destruct (exp_val_ext _ _ _ _ _ Ls E1) as [[Y1 [_ Y3]] _]. split; [congruence|lia].
+  - unfold st1. simpl. rewrite upd_length. split; auto. lia.
+  - rewrite Ef. eauto.
+Qed.
+
+Lemma count_none_repeat : forall n, count_none (repeat None n) = n.
+Proof. unfold count_none. induction n; simpl; auto. Qed.
+
+Lemma export_graph_total : forall root, graph_closed g = true -> jv_closed (length g) root = true ->
+  exists st r, export_graph g root = Some (st, r).
+Proof.
+  intros. unfold export_graph. apply exp_val_total; auto.
+  - unfold est0. simpl. apply repeat_length.
+  - unfold est0. simpl. rewrite count_none_repeat. lia.
+Qed.
+End ExportGraph.
